@@ -161,3 +161,25 @@ func C16SameDescription(after, before http.Header) bool {
 	}
 	return true
 }
+
+var c16H1Own = map[string]bool{"Host": true, "User-Agent": true, "Content-Length": true, "Transfer-Encoding": true, "Trailer": true,
+	C01HeaderOrderKey: true, C01PseudoHeaderOrderKey: true}
+
+// C16DescriptionOf renders a header map by MEANING for the HTTP/1.1 writer: the values of the keys
+// that writer writes from the map (valid field names outside its exclusion table) in the form it
+// writes them (CR / LF to space, surrounding blanks trimmed), everything else as it is. Whether an
+// implementation sanitises those values in place (as headerWriteSubset does today) or on a copy,
+// the rendering of the map it leaves behind is the same.
+func C16DescriptionOf(h http.Header) http.Header {
+	out := http.Header{}
+	for k, vs := range h {
+		cp := append([]string{}, vs...)
+		if !c16H1Own[k] && c01Token(k) {
+			for i, v := range cp {
+				cp[i] = strings.Trim(strings.NewReplacer("\n", " ", "\r", " ").Replace(v), " \t")
+			}
+		}
+		out[k] = cp
+	}
+	return out
+}
